@@ -11,7 +11,7 @@ RULE = ("S-REGION: FileContents::new_from_data + show_region / line_number_and_b
         "and without final newline, empty, multi-byte) and spans anywhere, reversed, empty, beyond the end and usize::MAX, "
         "under catch_unwind; compared byte for byte with the Lean model Io.showRegion (correspondence) and, for spans inside "
         "one line of the user's text, with Spec.region (oracle). "
-        "S-DIAG: one fault of 13 kinds planted at a known line and column (any line incl. first/last, after comments, blank "
+        "S-DIAG: one fault of 19 kinds planted at a known line and column (any line incl. first/last, after comments, blank "
         "lines and two-line block comments, LF or CRLF, with or without final newline) in an otherwise valid program; the real "
         "parse_y86_hcl + Error::format_for_contents with the real preamble; every located region of the rendered text must "
         "be what the model renders for a span the error carries (correspondence: errors.rs hands its spans to show_region "
